@@ -124,7 +124,7 @@ func (i *FSMInstance) Do(event fsm.Event, args ...interface{}) (result *fsm.Resp
 
 		dump, dumpErr = i.dump.Marshal()
 		if dumpErr != nil {
-			return result, []byte{}, err
+			return result, []byte{}, fmt.Errorf("failed to marshal machine dump: %w", dumpErr)
 		}
 	}
 
